@@ -707,7 +707,7 @@ def id_plan(tier, caps=None):
         plan.append((n, id_programs(n, tier), dict(pb=2 if q else 3, max_exec=(1500 if n < 3 else 800) if q else 25000)))
         # schedules with many preemptions (a thread that loses two claim races in a row, ...) are out of reach of the
         # preemption-bounded search: seeded random schedules of the same programs complement it
-        plan.append((n, id_programs(n, tier), dict(mode='random', max_exec=(300 if n < 3 else 150) if q else 12000)))
+        plan.append((n, id_programs(n, tier), dict(mode='random', max_exec=(800 if n == 1 else 300 if n == 2 else 150) if q else 12000)))
     return plan
 
 
